@@ -34,7 +34,9 @@ func tyList(e *syntax.Type) *syntax.Type { return &syntax.Type{Kind: syntax.Kind
 
 func c15types() []*syntax.Type {
 	return []*syntax.Type{ty("bool"), ty("int32"), ty("string"), ty("bytes"), ty("bin128"), tyAny(), tyMsg(), ty("Ref"), tyImp("pkg", "Ref"),
-		tyList(ty("int64")), tyList(ty("Ref")), tyList(tyImp("pkg", "Ref")), tyList(tyAny()), tyList(tyMsg())}
+		tyList(ty("int64")), tyList(ty("Ref")), tyList(tyImp("pkg", "Ref")), tyList(tyAny()), tyList(tyMsg()),
+		// qualified references whose name is spelled like a builtin type, and references named like contextual keywords
+		tyImp("pkg", "string"), tyImp("pkg", "int64"), tyList(tyImp("pkg", "bytes")), tyImp("pkg", "bin128"), ty("import"), tyList(ty("options"))}
 }
 
 // c15defs enumerates definition shapes (<=2 fields/values/methods each).
@@ -79,9 +81,9 @@ func c15defs() []*syntax.Definition {
 		return fs
 	}
 	var methods []*syntax.Method
-	inputs := []any{syntax.Fields(nil), ty("Req"), tyImp("pkg", "Req"), fl(1), fl(2)}
-	outputs := []any{nil, ty("Resp"), tyImp("pkg", "Resp"), fl(1), fl(2)}
-	chans := []*syntax.MethodChannel{nil, {In: ty("In")}, {Out: ty("Out")}, {In: tyList(ty("In")), Out: tyImp("pkg", "Out")}}
+	inputs := []any{syntax.Fields(nil), ty("Req"), tyImp("pkg", "Req"), fl(1), fl(2), tyImp("pkg", "string")}
+	outputs := []any{nil, ty("Resp"), tyImp("pkg", "Resp"), fl(1), fl(2), tyImp("pkg", "bytes")}
+	chans := []*syntax.MethodChannel{nil, {In: ty("In")}, {Out: ty("Out")}, {In: tyList(ty("In")), Out: tyImp("pkg", "Out")}, {In: tyImp("pkg", "int32"), Out: tyImp("pkg", "bool")}}
 	k := 0
 	for _, in := range inputs {
 		for _, o := range outputs {
